@@ -204,8 +204,8 @@ pub fn diff(f: MemFn, out: &MemOut, exp: &Exp, dst_len: usize, fill: u8) -> Opti
 // ------------------------------------------------------------------------------------------
 // Source generators
 
-pub const UNITS: [u16; 18] = [0x0000, 0x0041, 0x007F, 0x0080, 0x00E9, 0x00FF, 0x0100, 0x07FF, 0x0800, 0x4E00, 0xFFFD, 0xFFFF, 0xD800, 0xDBFF, 0xDC00, 0xDFFF, 0xD83D, 0xDCA9];
-pub const UNITS_SMALL: [u16; 9] = [0x0041, 0x0080, 0x07FF, 0x0800, 0xFFFF, 0xD800, 0xDBFF, 0xDC00, 0xDFFF];
+pub const UNITS: [u16; 20] = [0x0000, 0x0041, 0x007F, 0x0080, 0x00E9, 0x00FF, 0x0100, 0x07FF, 0x0800, 0x4E00, 0xFFFD, 0xFFFF, 0xD800, 0xDBFF, 0xDC00, 0xDFFF, 0xD83D, 0xDCA9, 0xD7FF, 0xE000];
+pub const UNITS_SMALL: [u16; 11] = [0x0041, 0x0080, 0x07FF, 0x0800, 0xFFFF, 0xD800, 0xDBFF, 0xDC00, 0xDFFF, 0xD7FF, 0xE000];
 pub const TEXT_CHARS: [char; 14] = ['\u{0}', 'A', '\u{7F}', '\u{80}', '\u{E9}', '\u{FF}', '\u{100}', '\u{7FF}', '\u{800}', '\u{4E00}', '\u{FFFD}', '\u{10000}', '\u{1F4A9}', '\u{10FFFF}'];
 pub const BAD_UTF8: [&[u8]; 22] = [b"\x80", b"\xBF", b"\xC0\x80", b"\xC1\xBF", b"\xC2", b"\xE0\x80\x80", b"\xE0\x9F\xBF", b"\xE0\xA0", b"\xED\xA0\x80", b"\xED\xBF\xBF", b"\xEF\xBF", b"\xF0\x80\x80\x80", b"\xF0\x8F\xBF\xBF", b"\xF0\x90\x80", b"\xF4\x90\x80\x80", b"\xF5\x80\x80\x80", b"\xFF", b"\xFE", b"\xF8\x88\x80\x80\x80", b"\xE4\xB8", b"\xF0\x9F\x92", b"\xC3\xC3"];
 
